@@ -394,7 +394,8 @@ def run(ctx):
         'fortran_three_digit_exponent': sum(1 for v in verdicts if 206 in v),
         'run_dirs': R.distribution(rspecs, rverdicts, rinfos),
         'lst_files': {'n': len(lspecs), 'malformed': sum(1 for i in linfos if i['raw']),
-                      'impl_raises': sum(1 for i in linfos if i['exc'])},
+                      'impl_raises': sum(1 for i in linfos if i['exc']),
+                      'in_domain_of_parse_render_lst': sum(1 for v in lverdicts if 211 in v)},
     }
     ctx.coverage['samples'] = ([{'spec': _short(s), 'tags': v} for s, v in list(zip(fspecs, verdicts))[-3:]]
                                + [{'spec': _short(s), 'tags': v} for s, v in list(zip(rspecs, rverdicts))[-2:]])
